@@ -772,37 +772,92 @@ func c01r10(c *Ctx) {
 	}
 	if f := c.fn(R, "store.HTree.get"); f != nil {
 		info := f.Info()
-		meta, pos, found := f.Result(0), f.Result(1), f.Result(2)
 		okPos, okFound, okMeta := false, false, false
-		ast.Inspect(f.Decl.Body, func(x ast.Node) bool {
-			as, isA := x.(*ast.AssignStmt)
-			if !isA || len(as.Lhs) != 1 {
-				return true
-			}
-			switch prog.ObjOf(info, as.Lhs[0]) {
-			case pos:
-				if k, _ := prog.FieldOf(info, as.Rhs[0]); strings.HasSuffix(k, ".Pos") {
-					okPos = true
-				}
-			case found:
-				if call, isC := prog.Unparen(as.Rhs[0]).(*ast.CallExpr); isC && prog.CalleeKey(info, call) == "store.HTree.getReq" {
-					okFound = true
-				}
-			case meta:
-				// &Meta{0, 0, item.Ver, item.Vhash, 0}
-				ast.Inspect(as.Rhs[0], func(y ast.Node) bool {
-					if cl, isC := y.(*ast.CompositeLit); isC && len(cl.Elts) == 5 {
-						k2, _ := prog.FieldOf(info, cl.Elts[2])
-						k3, _ := prog.FieldOf(info, cl.Elts[3])
-						if strings.HasSuffix(k2, ".Ver") && strings.HasSuffix(k3, ".Vhash") {
-							okMeta = true
+		// what each result can be: assignments to the named result, explicit return
+		// operands, and (one step back) the definitions of a local that is returned
+		resExprs := func(i int) []ast.Expr {
+			var out []ast.Expr
+			res := f.Result(i)
+			var add func(e ast.Expr, at ast.Node, depth int)
+			add = func(e ast.Expr, at ast.Node, depth int) {
+				out = append(out, e)
+				if depth > 0 {
+					if o := prog.ObjOf(info, prog.Unparen(e)); o != nil && o != res {
+						for _, src := range f.SourcesAt(e, at) {
+							if src.Expr != nil && src.Expr != e {
+								add(src.Expr, at, depth-1)
+							}
+							if src.Call != nil {
+								out = append(out, src.Call)
+							}
 						}
 					}
-					return true
-				})
+				}
 			}
-			return true
-		})
+			ast.Inspect(f.Decl.Body, func(x ast.Node) bool {
+				switch s := x.(type) {
+				case *ast.FuncLit:
+					return false
+				case *ast.AssignStmt:
+					for j, l := range s.Lhs {
+						if res != nil && prog.ObjOf(info, l) == res {
+							if len(s.Rhs) == len(s.Lhs) {
+								add(s.Rhs[j], s, 1)
+							} else if len(s.Rhs) == 1 {
+								add(s.Rhs[0], s, 1)
+							}
+						}
+					}
+				case *ast.ReturnStmt:
+					if i < len(s.Results) {
+						add(s.Results[i], s, 2)
+					}
+				}
+				return true
+			})
+			return out
+		}
+		for _, e := range resExprs(1) {
+			if k, _ := prog.FieldOf(info, e); strings.HasSuffix(k, ".Pos") {
+				okPos = true
+			}
+		}
+		for _, e := range resExprs(2) {
+			if call, isC := prog.Unparen(e).(*ast.CallExpr); isC && prog.CalleeKey(info, call) == "store.HTree.getReq" {
+				okFound = true
+			}
+		}
+		for _, e := range resExprs(0) {
+			// &Meta{0, 0, item.Ver, item.Vhash, 0} or the keyed form
+			ast.Inspect(e, func(y ast.Node) bool {
+				cl, isC := y.(*ast.CompositeLit)
+				if !isC {
+					return true
+				}
+				ver, vh := false, false
+				for idx, el := range cl.Elts {
+					v := el
+					name := ""
+					if kv, isKV := el.(*ast.KeyValueExpr); isKV {
+						v = kv.Value
+						if id, isId := kv.Key.(*ast.Ident); isId {
+							name = id.Name
+						}
+					}
+					k, _ := prog.FieldOf(info, v)
+					if strings.HasSuffix(k, ".Ver") && (name == "Ver" || (name == "" && idx == 2 && len(cl.Elts) == 5)) {
+						ver = true
+					}
+					if strings.HasSuffix(k, ".Vhash") && (name == "ValueHash" || (name == "" && idx == 3 && len(cl.Elts) == 5)) {
+						vh = true
+					}
+				}
+				if ver && vh {
+					okMeta = true
+				}
+				return true
+			})
+		}
 		c.check(okPos && okFound && okMeta, R, f.Key+": returns the stored item's position, version and value hash", f.Pos(), "pos = item.Pos; meta = {Ver, Vhash}", "HTree.get does not hand back the position / version / value hash of the stored item")
 	}
 	if f := c.fn(R, "store.Payload.CalcValueHash"); f != nil {
